@@ -133,18 +133,22 @@ def trace_case(tool, cli, cmd, s):
             if e[0] == "seed":
                 break
             before += 1
-        if before:
-            return {"argv": argv, "draws_before_first_seed": before}
-        if not ev or ev[0] != ("seed", s):
-            return {"argv": argv, "first_generator_event": str(ev[:1])}
-        random.seed(123)   # a different hidden initial state
-        for _ in range(7):
-            random.random()
-        F2 = quiet(lambda: cli(argv, mode="formula"))
-        if fsig(F2) != state["F1"]:
-            a, b = state["F1"], fsig(F2)
-            which = [n for n, x, y in zip(("class", "nvars", "names", "clauses", "header"), a, b) if x != y]
-            return {"argv": argv, "differs_in": which}
+        # The property: the formula (header included) is the same from every hidden initial state of the generator.
+        # A draw before the first random.seed(s) is only SUSPICIOUS (its value may be unused): it widens the comparison
+        # to more initial states, it is not reported by itself.
+        suspicious = bool(before) or not ev or ev[0] != ("seed", s)
+        for k in range(6 if suspicious else 1):
+            random.seed(123 + 1000 * k)   # a different hidden initial state
+            for _ in range(7 + k):
+                random.random()
+            F2 = quiet(lambda: cli(argv, mode="formula"))
+            if fsig(F2) != state["F1"]:
+                a, b = state["F1"], fsig(F2)
+                which = [n for n, x, y in zip(("class", "nvars", "names", "clauses", "header"), a, b) if x != y]
+                out = {"argv": argv, "differs_in": which}
+                if before:
+                    out["draws_before_first_seed"] = before
+                return out
         return None
     r = req("phase", s, 1)
     return Case("trace", r, impl, oracle, cls=tool + ":" + cmd[0], info={"tool": tool, "cmd": cmd, "seed": s})
@@ -199,7 +203,7 @@ def lib_case(rng):
 
 
 def process_case(rng, tier):
-    cmds = RANDOM_CMDS if tier == "thorough" else rng.sample(RANDOM_CMDS[:-len(MULTI_MOD)], 8) + MULTI_MOD
+    cmds = RANDOM_CMDS if tier == "thorough" else rng.sample(RANDOM_CMDS[:-len(MULTI_MOD)], 7) + MULTI_MOD
     seeds = [0, 1, 2 ** 31, -5] if tier == "thorough" else [0, rng.randint(1, 10 ** 6)]
     jobs = []
     for c in cmds:
@@ -207,6 +211,27 @@ def process_case(rng, tier):
             jobs.append((["cnfgen", "--seed", str(s)] + c, s))
     jobs.append((["pbgen", "--seed", "0", "php", "5", "4", "2"], 0))
     jobs.append((["cnfgen", "kcolor", "3", "complete", "4"], None))   # no randomness at all: still process independent
+    # the reviewed static hazards that lie on an output path (Cli/HazardReview.lean): the LaTeX description of the
+    # command line iterates over vars(namespace).items(); the version string comes from a sub-process; plus the other
+    # output formats and pbgen's own sub-commands
+    sd = str(seeds[-1])
+    for c in (["cnfgen", "--seed", sd, "-of", "latex", "kcolor", "3", "gnp", "5", ".5", "addedges", "1"],
+              ["cnfgen", "--seed", sd, "--latex", "randkcnf", "3", "6", "5", "-T", "shuffle"],
+              ["cnfgen", "--seed", sd, "-of", "opb", "--varnames", "tseitin", "random", "gnp", "5", ".6"],
+              ["cnfgen", "--seed", sd, "--varnames", "kclique", "3", "gnm", "6", "8", "plantclique", "3"],
+              ["cnfgen", "--seed", sd, "-q", "randkxor", "3", "7", "5", "-p"],
+              ["pbgen", "--seed", sd, "-of", "latex", "php", "glrd", "4", "5", "2"],
+              ["pbgen", "--seed", sd, "randkcnf", "3", "7", "9"], ["pbgen", "--seed", sd, "--varnames", "subsetcard", "5"],
+              ["pbgen", "--seed", sd, "tseitin", "randomodd", "gnd", "6", "3"], ["pbgen", "--seed", sd, "op", "6", "3"]):
+        # quick tier: the two LaTeX descriptions, one OPB/varnames run and a rotating half of the others
+        if tier == "thorough" or "latex" in c or "-of" in c or rng.random() < 0.4:
+            jobs.append((c, seeds[-1]))
+    # error reports name the valid choices, computed from dictionary views (reviewed hazards 6, 7): the whole report
+    # (stderr) must not depend on the process either
+    for c in (["cnfgen", "--seed", sd, "kcolor", "3", "glrd", "5", "4", "2"], ["cnfgen", "--seed", sd, "kcolor", "3", "nosuchfile.xyz", "addedges"],
+              ["cnfgen", "--seed", sd, "php", "gnp", "5", ".5"]):
+        if tier == "thorough" or rng.random() < 0.67:
+            jobs.append((c, "err"))
     for sd in ("0", "7"):
         jobs.append((["cnfshuffle", "--seed", sd], sd))
     # input files named relative to the working directory (plain and through symbolic links; the two working
@@ -247,10 +272,16 @@ def process_case(rng, tier):
                     env = dict(os.environ, PYTHONPATH=common.REPO, PYTHONWARNINGS="ignore", PYTHONHASHSEED=hs)
                     p = subprocess.run([sys.executable, "-m", mod] + argv[1:], cwd=cwd, input=stdin_text,
                                        stdout=subprocess.PIPE, stderr=subprocess.PIPE, env=env, timeout=300)
-                    outs.append((p.returncode, p.stdout))
-                return argv, outs
+                    if s == "err":
+                        # an error report: status and both streams (the status must be a failure in every process)
+                        outs.append((1 if p.returncode != 0 else 0, p.stdout + b"\n--stderr--\n" + p.stderr))
+                    else:
+                        outs.append((p.returncode, p.stdout))
+                return argv, s, outs
             with ThreadPoolExecutor(12) as ex:
-                for argv, outs in ex.map(run, jobs):
+                for argv, s_, outs in ex.map(run, jobs):
+                    if s_ == "err" and outs[0][0] == 1 and all(o == outs[0] for o in outs[1:]):
+                        continue
                     if any(o != outs[0] for o in outs[1:]):
                         a, b = outs[0][1].decode(errors="replace").split("\n"), [o for o in outs if o != outs[0]][0][1].decode(errors="replace").split("\n")
                         diff = [(x, y) for x, y in zip(a, b) if x != y][:3]
@@ -320,6 +351,34 @@ def libproc_case():
         finally:
             shutil.rmtree(tmp, ignore_errors=True)
     return Case("libproc", req("phase", 0, 1), lambda: ok("1 0"), oracle, cls="libproc", info={})
+
+
+def search_global(ctx):
+    """a proof obligation of C07 no longer checks (phase order, call sites of `random`, static hazards, the run model):
+    look for a concrete command line whose output depends on the process — every random sub-command, four seeds, fresh
+    processes with different PYTHONHASHSEED values and working directories, then the in-process event traces"""
+    rng = common.sub_rng(ctx["seed"], "C07", "global")
+    r = process_case(rng, "thorough").oracle()
+    if r is not None:
+        return r
+    for cmd in RANDOM_CMDS:
+        for s in (0, 1, rng.randint(2, 10 ** 9)):
+            c = trace_case("cnfgen", cli_cnfgen, cmd, s)
+            try:
+                c.impl()
+            except Exception:
+                continue
+            r = c.oracle()
+            if r is not None:
+                return r
+    for s in (0, 5, "0", "abc"):
+        r = shuffle_case(s).oracle()
+        if r is not None:
+            return r
+    r = lib_case(rng).oracle()
+    if r is not None:
+        return r
+    return libproc_case().oracle()
 
 
 def build(suite, info):
